@@ -586,6 +586,18 @@ def np_matmul(A, B):
             for j in range(B.shape[1]):
                 out[i, j] = functools.reduce(add, [mul(A[i, k], B[k, j]) for k in range(A.shape[1])], 0)
         return _maybe_native(out)
+    if A.ndim >= 2 and B.ndim >= 2:
+        # stacked matrices: matmul over the last two axes, the leading axes broadcast (numpy semantics)
+        try:
+            lead = np.broadcast_shapes(A.shape[:-2], B.shape[:-2])
+        except ValueError:
+            raise PyRaise("ValueError", f"matmul: shapes {A.shape} and {B.shape} not aligned")
+        Ab = np.broadcast_to(A, lead + A.shape[-2:])
+        Bb = np.broadcast_to(B, lead + B.shape[-2:])
+        out = np.empty(lead + (A.shape[-2], B.shape[-1]), dtype=object)
+        for idx in np.ndindex(*lead):
+            out[idx] = np_matmul(np.asarray(Ab[idx], dtype=object), np.asarray(Bb[idx], dtype=object))
+        return _maybe_native(out)
     raise Unsupported("matmul rank")
 
 
